@@ -21,7 +21,7 @@ RULE = (
 )
 ASSUMPTIONS = ["float64 representative of float32", "values from finite alphabets", "the three descriptions share the physical origin (centred domain)"]
 TOL = 1e-9
-GRIDS3 = ["uniform", "rect_uniform", "quasi"]
+GRIDS3 = ["uniform", "rect_uniform", "quasi", "rect_uniform_origin0"]
 SHAPE38 = [4, 6, 6]  # QuasiUniformGrid requires even cell counts
 
 
@@ -35,7 +35,7 @@ def cases(tier, seed):
     from mc import menus as m
 
     c = _c11()
-    sizes = [len(c.FACES), len(c.SOURCES), len(c.DETS), len(c.MATS)]
+    sizes = [len(c.FACES), len(c.SOURCES), len(c.DETS), len(c.MATS) + 1]  # extra materials entry: block placed by real position
     if tier == "quick":
         idx = m.enumerate_deviations(sizes, 1)
     else:
@@ -48,6 +48,7 @@ def bounds(tier, seed):
     return {
         "menus": {"faces": [f[0] for f in c.FACES], "src": [s[0] for s in c.SOURCES], "dets": [d[0] for d in c.DETS], "mats": [x[0] for x in c.MATS]},
         "grids": GRIDS3,
+        "extra_materials_entry": "a material block placed through partial_real_position/partial_real_shape (centre-relative metres)",
         "deviation_bound": 1 if tier == "quick" else 2,
         "rows": "zero + all basis states + affinity + detector-cell pairs + zero/dense probes at every t",
         "tolerance": TOL,
@@ -59,12 +60,24 @@ def run_case(case):
 
     c = _c11()
     i = case["idx"]
-    names = dict(faces=c.FACES[i[0]][0], src=c.SOURCES[i[1]][0], dets=c.DETS[i[2]][0], mats=c.MATS[i[3]][0])
+    placed = i[3] == len(c.MATS)
+    names = dict(faces=c.FACES[i[0]][0], src=c.SOURCES[i[1]][0], dets=c.DETS[i[2]][0], mats="placed-block-by-real-position" if placed else c.MATS[i[3]][0])
     scs = []
     try:
         for g in GRIDS3:
-            spec = c.spec_of(dict(idx=[i[0], i[1], i[2], i[3], 0], seed=case["seed"]), False, shape=SHAPE38)
+            spec = c.spec_of(dict(idx=[i[0], i[1], i[2], 0 if placed else i[3], 0], seed=case["seed"]), False, shape=SHAPE38)
             spec["grid"] = g
+            if g == "rect_uniform_origin0":
+                # explicit equal-spacing edges that are NOT centred on 0 (lower corner at the origin)
+                spec["grid"] = {"edges": [[50e-9 * k for k in range(SHAPE38[a] + 1)] for a in range(3)]}
+            if placed:
+                import fdtdx
+
+                for k in ("eps", "mu", "sig_e", "sig_h"):
+                    spec.pop(k, None)
+                d = 50e-9
+                blk = fdtdx.UniformMaterialObject(name="blk", partial_real_shape=(2 * d, 1 * d, 2 * d), partial_real_position=(0.0, -1.5 * d, 1.0 * d), material=fdtdx.Material(permittivity=2.5, permeability=1.5))
+                spec["_extra_objects"] = [(blk, [])]
             scs.append(scenes.build(spec))
     except Exception as e:
         if not (isinstance(e, (ValueError, NotImplementedError)) or "not supported" in repr(e) or "NotImplementedError" in repr(e)):
@@ -77,6 +90,11 @@ def run_case(case):
     if any(cc.n != n for cc in codecs) or any(s.T != scs[0].T for s in scs):
         fails.append(dict(sig="different-state-layout-or-step-count", detail=dict(n=[cc.n for cc in codecs], T=[s.T for s in scs])))
         return dict(ok=False, failures=fails, detail=detail, nontrivial=1, evals=1, states=1, transitions=1, traces=0)
+    if placed:
+        sl = [tuple(s.objects["blk"].grid_slice_tuple) for s in scs]
+        detail["block_slices"] = [str(x) for x in sl]
+        if any(x != sl[0] for x in sl):
+            fails.append(dict(sig="object-placed-by-real-position-lands-on-different-cells", detail=dict(detail)))
     dts = [s.config.time_step_duration for s in scs]
     if max(dts) - min(dts) > 1e-12 * max(dts):
         fails.append(dict(sig="different-time-step", detail=dict(dt=dts)))
